@@ -1217,6 +1217,20 @@ func (r *Run) maybeNilSource(v ssa.Value) (kind, desc string, ok bool) {
 		case *types.Pointer, *types.Interface:
 			return "P3", "map lookup " + describeMap(x.X) + "[…] without comma-ok", true
 		}
+	case *ssa.Extract:
+		// `v, ok := m[k]` / `v, _ := m[k]`: v is the zero value when the key is absent — the
+		// same nil as the single-result form unless the use is on the ok side (nonNilAt)
+		lk, isLk := x.Tuple.(*ssa.Lookup)
+		if !isLk || !lk.CommaOk || x.Index != 0 {
+			return
+		}
+		if _, isMap := lk.X.Type().Underlying().(*types.Map); !isMap {
+			return
+		}
+		switch x.Type().Underlying().(type) {
+		case *types.Pointer, *types.Interface:
+			return "P3", "map lookup " + describeMap(lk.X) + "[…] with comma-ok", true
+		}
 	case *ssa.Call:
 		if sc := x.Call.StaticCallee(); sc != nil {
 			n := extName(sc)
@@ -1389,6 +1403,22 @@ func (r *Run) nonNilAt(v ssa.Value, at ssa.Instruction) (bool, string) {
 			return true, "dominated by a nil test of the same value at " + r.P.pos(iff.Cond.Pos())
 		}
 	}
+	// value of a comma-ok lookup: the use is on the side where ok holds
+	if ex, isEx := v.(*ssa.Extract); isEx {
+		if lk, isLk := ex.Tuple.(*ssa.Lookup); isLk && lk.CommaOk && lk.Referrers() != nil {
+			for _, ref := range *lk.Referrers() {
+				okv, isOk := ref.(*ssa.Extract)
+				if !isOk || okv.Index != 1 {
+					continue
+				}
+				for _, side := range truthSides(okv) {
+					if len(side.Preds) == 1 && (side == at.Block() || side.Dominates(at.Block())) {
+						return true, "on the ok side of the comma-ok lookup at " + r.P.pos(lk.Pos())
+					}
+				}
+			}
+		}
+	}
 	// init-if-nil idiom for map lookups: if m[k] == nil { m[k] = new }; use m[k]
 	if lk, ok := v.(*ssa.Lookup); ok {
 		if r.initIfNil(lk) {
@@ -1396,6 +1426,33 @@ func (r *Run) nonNilAt(v ssa.Value, at ssa.Instruction) (bool, string) {
 		}
 	}
 	return false, ""
+}
+
+// truthSides: the blocks entered only when the boolean b is true — the true successor of
+// `if b`, the false successor of `if !b`; short-circuit conditions (`ok && …`) have already
+// been split into such tests by go/ssa.
+func truthSides(b ssa.Value) []*ssa.BasicBlock {
+	var out []*ssa.BasicBlock
+	if b.Referrers() == nil {
+		return nil
+	}
+	for _, ref := range *b.Referrers() {
+		switch x := ref.(type) {
+		case *ssa.If:
+			if x.Cond == b && len(x.Block().Succs) == 2 && x.Block().Succs[0] != x.Block().Succs[1] {
+				out = append(out, x.Block().Succs[0])
+			}
+		case *ssa.UnOp:
+			if x.Op == token.NOT && x.Referrers() != nil {
+				for _, r2 := range *x.Referrers() {
+					if iff, ok := r2.(*ssa.If); ok && iff.Cond == ssa.Value(x) && len(iff.Block().Succs) == 2 && iff.Block().Succs[0] != iff.Block().Succs[1] {
+						out = append(out, iff.Block().Succs[1])
+					}
+				}
+			}
+		}
+	}
+	return out
 }
 
 // writeBetween: for a re-read (second lookup of the same map/key, second load of the same
@@ -1641,6 +1698,9 @@ func (r *Run) nilChecks(fn *ssa.Function) (nP3, nP5 int) {
 			arg = why
 		}
 		site := r.P.pos(ins.Pos())
+		if ex, isEx := ins.(*ssa.Extract); isEx {
+			site = r.P.pos(ex.Tuple.Pos())
+		}
 		if site == "-" && badUse != nil {
 			site = r.P.pos(badUse.Pos())
 		}
